@@ -235,6 +235,8 @@ def run(repo, rep):
     rep.clause("C16-b", "every constraint that is defined is registered (no dead constraint); each constraint's implementation uses the quantity its text names")
     rep.clause("C16-c", "the report generator iterates every list the checkers enforce, each with the exemption table of the same checker")
     rep.clause("C16-d", "the checkers' verdict is applied to every operator, rewrites are guarded per rewrite by run_on_npu, and run_on_npu has only the reviewed writers")
+    rep.clause("C16-e", "constraints that use the `axis` attribute as an index normalise a negative axis first; quantisation equality used by 'must match' constraints is exact; an activation is folded into the preceding operator only if that operator runs on the NPU")
+    rule_semantics_of_helpers(repo, rep)
     rep.undecided("that an operator satisfying all constraints ends up inside an Ethos-U subgraph after rewriting, packing and extraction")
     so = repo.mod("tflite_supported_operators")
     sem = repo.mod("tflite_model_semantic")
@@ -430,3 +432,61 @@ def run(repo, rep):
     rep.check(any("is_operator_semantic_valid" in norm(s) and "run_on_npu" in norm(s) for s in ast.walk(sc) if isinstance(s, ast.Assign)), "C16-d", f"{SEM}:tflite_semantic_checker",
               "the semantic verdict is stored in run_on_npu", "")
     rep.floor("C16-d", 12)
+
+
+def rule_semantics_of_helpers(repo, rep):
+    from ..cfg import cfg_of
+    from ..exprnorm import conjuncts
+
+    # (1) negative axis: a valid model may give axis = -1; constraints indexing with it must add the rank first
+    n = 0
+    for mname, cls in (("tflite_model_semantic", "TFLiteSemantic"), ("tflite_supported_operators", "TFLiteSupportedOperators")):
+        m = repo.mod(mname)
+        for q, fn in m.functions.items():
+            if not q.startswith(cls + ".constraint_"):
+                continue
+            reads = [s_ for s_ in ast.walk(fn) if isinstance(s_, ast.Assign) and norm(s_.targets[0]) == "axis" and norm(s_.value) in ("op.attrs['axis']", "op.attrs.get('axis')")]
+            if not reads:
+                continue
+            used_as_index = False
+            for x in ast.walk(fn):
+                if isinstance(x, ast.Subscript) and any(isinstance(y, ast.Name) and y.id == "axis" for y in ast.walk(x.slice)):
+                    used_as_index = True
+                if isinstance(x, ast.Compare) and any(isinstance(y, ast.Name) and y.id == "axis" for y in [x.left] + x.comparators) and any(isinstance(o, (ast.NotEq, ast.Eq)) for o in x.ops) \
+                        and not any(isinstance(c_, ast.Constant) and c_.value is None for c_ in [x.left] + x.comparators):
+                    used_as_index = True
+            if not used_as_index:
+                continue
+            normalised = any(
+                (isinstance(s_, ast.AugAssign) and norm(s_.target) == "axis" and isinstance(s_.op, ast.Add) and "axis < 0" in norm(s_.value)) or
+                (isinstance(s_, ast.If) and norm(s_.test) == "axis < 0" and any(isinstance(b, ast.AugAssign) and norm(b.target) == "axis" for b in s_.body)) or
+                (isinstance(s_, ast.Assign) and norm(s_.targets[0]) == "axis" and "%" in norm(s_.value))
+                for s_ in ast.walk(fn))
+            n += 1
+            rep.check(normalised, "C16-e", f"ethosu/vela/{mname}.py:{q}", "`axis` is made non-negative (axis += rank if axis < 0) before it selects a dimension",
+                      "the attribute is used as an index / compared with dimension numbers as read: a valid operator written with a negative axis is judged on the wrong dimensions and rejected")
+    rep.check(n >= 2, "C16-e", "ethosu/vela/tflite_model_semantic.py", "axis-indexed constraints found", str(n))
+    # (2) exact quantisation equality
+    t = repo.mod("tensor")
+    for fnm in ("QuantizationParameters.is_scaling_equal",):
+        f = t.func(fnm)
+        ret = sorted((r for r in ast.walk(f) if isinstance(r, ast.Return)), key=lambda r: r.lineno)[-1]
+        cj = [norm(x) for x in conjuncts(ret.value)]
+        ok = set(cj) == {"self.scale_f32 == other.scale_f32", "self.zero_point == other.zero_point"}
+        rep.check(ok, "C16-e", f"ethosu/vela/tensor.py:{fnm}", "scaling equality is exact equality of scale and zero point ('quantization parameters must match')",
+                  f"returns `{norm(ret.value)}`: operators whose parameters differ slightly are accepted by the 'must match' constraints although the documented rule rejects them")
+    # (3) activation fusing
+    go = repo.mod("tflite_graph_optimiser")
+    fa = go.func("fuse_activation_function_with_prev")
+    fz = [s_ for s_ in ast.walk(fa) if isinstance(s_, ast.Assign) and norm(s_.targets[0]) == "fuse" and isinstance(s_.value, ast.BoolOp)]
+    if not fz:
+        raise AnalysisError("fuse_activation_function_with_prev: definition of `fuse` not found")
+    cj = [norm(x) for x in conjuncts(fz[0].value)]
+    rep.check("prev_op.run_on_npu" in cj, "C16-e", "ethosu/vela/tflite_graph_optimiser.py:fuse_activation_function_with_prev", "the operator that receives the activation (prev_op) runs on the NPU",
+              f"conjuncts {cj[:3]}...: an NPU activation is folded into a rejected (CPU) operator, which is rewired and takes the activation with it to the CPU")
+    c = cfg_of(fa)
+    gate = c.nodes_where(lambda nd: nd.kind == "test" and norm(nd.expr) in ("not fuse", "fuse"))
+    muts = c.nodes_where(lambda nd: nd.stmt is not None and nd.kind != "test" and isinstance(nd.stmt, (ast.Assign, ast.Expr)) and ("prev_op.set_output_tensor" in norm(nd.stmt) or norm(nd.stmt).startswith("prev_op.activation")))
+    rep.check(len(gate) == 1 and muts and all(c.dominates(gate[0], x) for x in muts), "C16-e", "ethosu/vela/tflite_graph_optimiser.py:fuse_activation_function_with_prev",
+              "prev_op is modified only after the `fuse` test", "")
+    rep.floor("C16-e", 5)
